@@ -96,6 +96,8 @@ type c20Shared struct {
 	// that load and blocks that are refused in each of the ways a load can be refused
 	lsysMem   linking.LinkSystem
 	failLinks []datamodel.Link
+	// nodes a subset matcher handed out for the stream-backed bytes node (matched once, then shared by every goroutine)
+	matched []datamodel.Node
 	// a Config with every field set by the caller (nothing for a walk to fill in), including a start path
 	cfgFull *traversal.Config
 	// a file-system block store filled beforehand and only read afterwards
@@ -158,6 +160,18 @@ func c20Setup(seed uint64) (*c20Shared, error) {
 	ma.Finish()
 	s.gen = nb.Build()
 	s.stream = basicnode.NewBytesFromReader(bytes.NewReader([]byte("stream-backed bytes content")))
+	{
+		big := basicnode.NewBytesFromReader(bytes.NewReader(bytes.Repeat([]byte("0123456789abcdefghijklmnopqrstuvwxyz"), 40)))
+		mm := func(k string, v core.Val) core.Val { return core.Map(core.KV{K: []byte(k), V: v}) }
+		for _, rg := range [][2]int64{{3, 700}, {0, 1440}, {100, 130}} {
+			if sel, st := core.CompileSel(mm(".", mm("subset", core.Map(core.KV{K: []byte("["), V: core.Int(rg[0])}, core.KV{K: []byte("]"), V: core.Int(rg[1])})))); st == "" {
+				traversal.WalkMatching(big, sel, func(p traversal.Progress, m datamodel.Node) error {
+					s.matched = append(s.matched, m)
+					return nil
+				})
+			}
+		}
+	}
 	// the file-system store of the "fsstore" workload (its directory lives as long as the process)
 	if dir, err := os.MkdirTemp("", "verif-c20-fs-"); err == nil {
 		st := &fsstore.Store{}
@@ -399,6 +413,21 @@ func c20Work(s *c20Shared, workload string, iters int) string {
 		case "stream": // a stream-backed bytes node read from several goroutines: whole reads, length probes, positioned reads, subset matches
 			b, err := s.stream.AsBytes()
 			put(fmt.Sprint(string(b), err))
+			// the nodes a subset matcher handed out earlier, shared: whole reads and many short positioned reads
+			for _, m := range s.matched {
+				mb, err := m.AsBytes()
+				put(fmt.Sprint(string(mb), err))
+				if lb, ok := m.(datamodel.LargeBytesNode); ok {
+					if rs, err := lb.AsLargeBytes(); err == nil {
+						for rep := 0; rep < 60; rep++ {
+							rs.Seek(int64((it*7+rep*11)%90), io.SeekStart)
+							part := make([]byte, 9)
+							k, _ := io.ReadFull(rs, part)
+							put(string(part[:k]))
+						}
+					}
+				}
+			}
 			if lb, ok := s.stream.(datamodel.LargeBytesNode); ok {
 				if rs, err := lb.AsLargeBytes(); err == nil {
 					// many short operations, so that probes and reads of different goroutines really overlap
